@@ -559,8 +559,8 @@ func (ts *TermStore) disjointSegments(op Op, a, b *Term) *Term {
 	if !(okShape(a) && (okShape(b) || b.op == OpConst)) && !(okShape(b) && a.op == OpConst) {
 		return nil
 	}
-	sa := ts.segsOf(a, nil, 8)
-	sb := ts.segsOf(b, nil, 8)
+	sa := ts.segsOf(a, nil, 100)
+	sb := ts.segsOf(b, nil, 100)
 	split := func(s seg, w int) (seg, seg, bool) {
 		// split off the high w bits
 		if s.t == nil {
@@ -1085,6 +1085,11 @@ func (ts *TermStore) Eq(a, b *Term) *Term {
 		// range-based
 		if ts.UMax(a) < b.k {
 			return ts.False
+		}
+		// concat(h, l) == c  =>  h == c_hi && l == c_lo
+		if a.op == OpConcat {
+			lw := a.args[1].w
+			return ts.And(ts.Eq(a.args[0], ts.Const(a.args[0].w, b.k>>uint(lw))), ts.Eq(a.args[1], ts.Const(lw, b.k&mask(lw))))
 		}
 		// zext(x) == c
 		if a.op == OpZExt {
